@@ -35,7 +35,7 @@ func init() {
 		Quick: 5000, Thorough: 500000,
 		Run:        runC08,
 		Rule:       "one run = one generated (type, value, protocol in {binary strict, binary non-strict, compact}) whose encoding E decodes; evaluations = individual faulted decodes: EOF at every offset of E through bytes.Reader and through the simulated reader (both io.ByteReader flavours), a reader error at every offset (all offsets up to 512 bytes, sampled beyond), chunk schedules, 6 byte substitutions per offset, every length / element count set to negative, oversized and out-of-range values, foreign fields of 12 shapes x 4 undeclared ids at every field boundary of every struct level, trailing bytes, each required field removed, each declared top-level field given another wire type, direct Reader method calls on arbitrary bytes. non-trivial = E has at least 2 bytes; distinct = distinct hash of (type, protocol, E)",
-		FaultKinds: []string{"eof-at-offset(bytes.Reader)", "eof-at-offset(simulated reader)", "eof-at-offset(simulated ByteReader)", "reader-error-at-offset", "chunked-delivery", "rot(byte-substitution)", "size-negative", "size-oversized", "size-out-of-range", "foreign-field", "foreign-field-nested-level", "trailing-bytes", "required-field-removed", "wire-type-changed(strict)", "wire-type-changed(non-strict)", "reader-method-on-arbitrary-bytes", "protocol:binary", "protocol:binary-nonstrict", "protocol:compact", "cut-inside-length", "data+err"},
+		FaultKinds: []string{"eof-at-offset(bytes.Reader)", "eof-at-offset(simulated reader)", "eof-at-offset(simulated ByteReader)", "reader-error-at-offset", "chunked-delivery", "rot(byte-substitution)", "size-negative", "size-oversized", "size-out-of-range", "foreign-field", "foreign-field-nested-level", "foreign-field-with-corrupted-size", "trailing-bytes", "required-field-removed", "wire-type-changed(strict)", "wire-type-changed(non-strict)", "reader-method-on-arbitrary-bytes", "protocol:binary", "protocol:binary-nonstrict", "protocol:compact", "cut-inside-length", "data+err"},
 		ProbeNames: []string{"messages", "precondition-failed(skipped)", "struct-levels>1", "E>=128B", "required-fields", "alloc-precise-samples", "eof-k0", "sites", "reference-parse-failed(structural operators skipped)"},
 		Real:       []string{"thrift.Unmarshal, thrift.Decoder (strict and non-strict), binary and compact Readers compiled from /repo's working tree (uninstrumented)"},
 		Model:      []string{"storage/transport medium (fault operators over the encoded bytes)", "io.Reader (simio.Reader with and without io.ByteReader)", "reference thrift parser/serialiser for both protocols (verifsim/ref) used to locate sizes and struct levels and to build foreign fields, removed fields and retyped fields"},
@@ -291,6 +291,18 @@ func foreignVals() []ref.TVal {
 		{Type: ref.TList, Elem: ref.TFalse, Elems: boolElems(20)},
 		{Type: ref.TMap},
 	}
+}
+
+func zeroOf(t int8) ref.TVal {
+	switch t {
+	case ref.TDouble:
+		return ref.TVal{Type: t, Raw8: make([]byte, 8)}
+	case ref.TBinary:
+		return ref.TVal{Type: t, Bin: []byte("x")}
+	case ref.TStruct:
+		return ref.TVal{Type: t}
+	}
+	return ref.TVal{Type: t}
 }
 
 func boolElems(n int) []ref.TVal {
@@ -599,6 +611,66 @@ func runC08(r *core.Run) {
 						}
 						if !sameAsBase(x) {
 							fail("foreign-field", "foreign-field-changes-value", m, "same-as-base", "a field with undeclared id %d of thrift type %d inserted at boundary %d of struct level %d changes the decoded value (%s, type %s)\ninput=%x\nbase=%x", id, fvals[fi].Type, bi, li, thriftProtoNames[pi], ty.name, clip(m, 300), clip(e, 300))
+							return
+						}
+					}
+				}
+			}
+		}
+		// F2. a foreign (to be skipped) collection or binary whose declared size is
+		// corrupted: skipping must fail (the elements are not there) within the
+		// allocation bound, whatever the element width
+		{
+			lv := levels[0]
+			id := ids[0]
+			for _, et := range []int8{ref.TDouble, ref.TI8, ref.TFalse, ref.TI64, ref.TBinary, ref.TStruct} {
+				for _, kind := range []int8{ref.TList, ref.TSet, ref.TMap, ref.TBinary} {
+					for _, count := range []uint32{1 << 28, 1 << 29, 1 << 30, 1<<31 - 1, 3 << 28, 1 << 20, 1000} {
+						if kind == ref.TBinary && et != ref.TDouble {
+							continue
+						}
+						// marker values make the size easy to find after serialisation
+						var fv ref.TVal
+						switch kind {
+						case ref.TBinary:
+							fv = ref.TVal{Type: ref.TBinary, Bin: []byte("size-site")}
+						case ref.TMap:
+							fv = ref.TVal{Type: ref.TMap, Key: ref.TI32, Val: et, Keys: []ref.TVal{{Type: ref.TI32, I: 1}}, Vals: []ref.TVal{zeroOf(et)}}
+						default:
+							fv = ref.TVal{Type: kind, Elem: et, Elems: []ref.TVal{zeroOf(et)}}
+						}
+						saved := lv.Fields
+						nf := append([]ref.TField{{ID: id, Val: fv}}, saved...)
+						lv.Fields = nf
+						m := ref.ThriftAppend(nil, &tree, compact, stop3)
+						lv.Fields = saved
+						// the foreign field is the first field: its size is the first site
+						_, fsites, ferr := ref.ThriftParse(m, topT, compact, stop3)
+						if ferr != nil || len(fsites) == 0 {
+							continue
+						}
+						fs := fsites[0]
+						if int(count) <= len(m) {
+							continue // the declared bytes could actually be there
+						}
+						var repl []byte
+						if compact {
+							if fs.Short {
+								repl = append([]byte{0xF0 | byte(fs.Elem)}, ref.AppendUvarint(nil, uint64(count), 0)...)
+							} else {
+								repl = ref.AppendUvarint(nil, uint64(count), 0)
+							}
+						} else {
+							repl = []byte{byte(count >> 24), byte(count >> 16), byte(count >> 8), byte(count)}
+						}
+						mm := splice(m, fs.Off, fs.N, repl)
+						_, err, ok := c.decode(mm, c08Mode{strict: count%2 == 0, decoder: count%2 == 0}, "foreign-field-with-corrupted-size")
+						if !ok {
+							return
+						}
+						r.Fault("foreign-field-with-corrupted-size")
+						if err == nil {
+							fail("bad-size-accepted", "foreign-size-oversized-accepted", mm, "error", "an unknown field of thrift type %d (element type %d) declaring %d elements/bytes that are not in the input is skipped without error (%s, type %s)\ninput=%x", kind, et, count, thriftProtoNames[pi], ty.name, clip(mm, 200))
 							return
 						}
 					}
